@@ -59,6 +59,10 @@ CLAIMS = {
   text="Deductive proof (govc: weakest-precondition VCs over go/ssa of the real code, contracts in internal/imapnum/contracts_verif.go, discharged by z3/cvc5) that Range.Contains/Less/Merge equal their mathematical specification for all uint32 inputs incl. 2^32-1 and '*', that Set.search/Contains/Dynamic are correct on every canonical set (unbounded length), and that Range.append terminates and yields exactly the members in ascending order.",
   note="Trusted: go/ssa + govc translation, solvers. Slice parameters viewed at offset 0; signed int arithmetic mathematical where no overflow obligation is generated. insert/AddRange/Parse/String not yet under contract (listed in evidence as not covered).",
   design="§6 C15"),
+ "C20": dict(
+  text="Deductive proof that the server's LIST matcher equals the RFC wildcard semantics for every name, pattern and hierarchy delimiter (unbounded lengths, multi-byte delimiters included): matchList(name, delim, pattern) == specMatch, the recursive definition '* matches any string, % any string without the delimiter, other bytes themselves' (induction over the pattern via the function's own contract, loop invariant over the backtracking position, two lemmas connecting chunk comparison and the existential over split points); MatchList resolves reference and pattern exactly as specified (absolute pattern drops the reference, missing trailing delimiter added, name must extend the reference) before matching.",
+  note="strings.HasPrefix/TrimPrefix/HasSuffix/IndexAny and string(rune) carry assumed contracts (listed in evidence). Not covered: the in-memory back end's selection of which mailboxes are offered to MatchList, \\Noselect parents for '%', subscription filtering, LIST-EXTENDED options.",
+  design="§6 C20"),
 }
 
 NA = {
